@@ -110,8 +110,14 @@ def resubmit_jobs(output, failed, missing, successful, submission_groups_file, v
 
     jobs_to_resubmit = _get_jobs_to_resubmit(cluster, output, failed, missing, successful)
     updated_blocking_jobs_by_name = _update_with_blocking_jobs(jobs_to_resubmit, output)
-    _reset_results(output, jobs_to_resubmit)
-    cluster.prepare_for_resubmission(jobs_to_resubmit, updated_blocking_jobs_by_name)
+
+    def _prepare_for_resubmission():
+        _reset_results(output, jobs_to_resubmit)
+        cluster.prepare_for_resubmission(jobs_to_resubmit, updated_blocking_jobs_by_name)
+
+    # Hold the cluster lock so that a status reader never sees jobs marked done whose results
+    # were already erased, or counters that disagree with the job states.
+    Cluster.do_action_under_lock(output, _prepare_for_resubmission)
     events_dir = Path(output) / EVENTS_DIR
     # The directory does not exist if the submission ran without report generation.
     for path in list(events_dir.iterdir()) if events_dir.exists() else []:
